@@ -374,11 +374,18 @@ static void suite8(Pools& pools, Rng& r, bool thorough) {
           ranges.emplace_back(hi - len, hi);
       }
   }
+  // quick: the boundary-biased ranges in all three modes; thorough: EVERY range, the mode rotating with
+  // (start + end + seed) so that three seeds give every range in every mode
+  int rot = (int)r.below(3);
   for (auto& rg : ranges)
     for (Mode m : {kStaticM, kAutoM, kChunkM}) {
+      if (thorough && ((rg.first + rg.second + 512 + rot) % 3) != (int)m)
+        continue;
       CallCfg cc = randCfg(r, m, hi);
       runCase<T>(pools, (T)rg.first, (T)rg.second, cc);
     }
+  if (thorough)
+    suite8<T>(pools, r, false);
 }
 
 template <class T>
